@@ -459,7 +459,7 @@ def _replay_b(param, a):
 
 def obligations(tier: str) -> List[Ob]:
     P = 2 if tier == "quick" else 3
-    names = list(SCENARIOS) if tier == "thorough" else ["2pub-new-channel", "2pub-existing-channel", "pub-new+sub-wildcard", "pub-existing+sub-exact", "2pub+sub-wildcard", "pub-other+sub-exact"]
+    names = list(SCENARIOS) if tier == "thorough" else ["2pub-new-channel", "2pub-existing-channel", "pub-new+sub-wildcard", "pub-existing+sub-exact", "2pub+sub-wildcard"]  # (quick: one 3-thread scenario for C14.S; "pub-other+sub-exact" and the other 3-thread ones are thorough-tier)
     two_thread = [nm for nm in names if len(_threads(nm)) == 2]
     # C14.B decides every 2-thread scenario in seconds: the quick tier gives it all of them, C14.S keeps the original six
     bnames = list(names) if tier == "thorough" else two_thread + ["2pub-new-channel-2msgs", "2sub-prefilled", "2sub-prefilled-1msg", "2pub-two-channels-repeat"]
